@@ -6,6 +6,7 @@ package main
 // the projected observation, and the generators of murex-looking rune strings.
 
 import (
+	"encoding/json"
 	"fmt"
 	"math/rand"
 	"regexp"
@@ -179,4 +180,22 @@ func tokClass(s []rune) string {
 		return "empty"
 	}
 	return "plain"
+}
+
+// tokShrink: smaller variants of a rune-string case (halves, one rune removed)
+func tokShrink(raw json.RawMessage) []any {
+	var c tokCase
+	if json.Unmarshal(raw, &c) != nil {
+		return nil
+	}
+	s := c.runes()
+	var out []any
+	if len(s) > 3 {
+		out = append(out, tokMk(s[:len(s)/2], 0), tokMk(s[len(s)/2:], 0))
+	}
+	for i := range s {
+		t := append(append([]rune(nil), s[:i]...), s[i+1:]...)
+		out = append(out, tokMk(t, 0))
+	}
+	return out
 }
